@@ -175,6 +175,20 @@ def derive(repo):
     if _raises(_body(st), inst):
         ok = True
     note("t_param_need", ok and stores, rel, st)
+    # identity vs contents: no path of __set__ may skip the notification depending on the value already stored
+    # (`if value is old: return`, `if np.array_equal(...)`): any `return` other than `return super().__set__(...)`,
+    # any comparison with instance.__dict__[...] makes the entry false
+    def _set_unconditional(fn):
+        for n in ast.walk(fn):
+            if isinstance(n, ast.Return) and n.value is not None and not _contains_call(n, "super()", "__set__"):
+                return False
+            if isinstance(n, ast.Return) and n.value is None:
+                return False
+            if isinstance(n, (ast.If, ast.IfExp)) and ".__dict__" in _src(n.test):
+                return False
+        return True
+    uncond = _set_unconditional(st)
+    L["t_param_set_unconditional"] = "%s:%d" % (rel, st.lineno)
     # subclasses overriding __set__ must go through super().__set__
     param_classes = {"_Parameter"}
     changed = True
@@ -189,6 +203,10 @@ def derive(repo):
             if isinstance(m, ast.FunctionDef) and m.name == "__set__" and not _contains_call(m, "super()", "__set__"):
                 F["t_param_need"] = False
                 L["t_param_need"] = "%s:%d" % (rel, m.lineno)
+            if isinstance(m, ast.FunctionDef) and m.name == "__set__" and not _set_unconditional(m):
+                uncond = False
+                L["t_param_set_unconditional"] = "%s:%d" % (rel, m.lineno)
+    F["t_param_set_unconditional"] = uncond
 
     # ---- Utilities/_observers.py ----------------------------------------------------------
     rel = "Utilities/_observers.py"
@@ -371,6 +389,42 @@ def derive(repo):
     note("t_meshset_clear", bool(_stmts_calling(inner, None, "clear_cached_computed_values", ["self"])), rel, ms)
     note("t_meshset_sub", bool(_stmts_calling(inner, marg, "_Add_observer", ["self"])) and observers_ok, rel, ms)
     note("t_meshset_initsols", bool(_stmts_calling(inner, "self", "__Init_Sols_n", [])), rel, ms)
+    # history-dependent INTERNAL variables of the subclasses (phase-field history, material state): whatever a
+    # subclass restores in its Set_Iter override beyond the base fields (private attributes, minus the flags its own
+    # Need_Update handles) belongs to the mesh and must be reset on the mesh-replacement path as well, through a
+    # method the base setter calls unconditionally and the subclass overrides
+    hooks = [st_.value.func.attr for st_ in inner if isinstance(st_, ast.Expr) and isinstance(st_.value, ast.Call)
+             and isinstance(st_.value.func, ast.Attribute) and _src(st_.value.func.value) == "self" and not st_.value.args]
+    sroot = os.path.join(repo, "EasyFEA", "Simulations")
+
+    def _priv_assigned(fn):
+        out = set()
+        for n in ast.walk(fn):
+            if isinstance(n, (ast.Assign, ast.AnnAssign)):
+                for t in (n.targets if isinstance(n, ast.Assign) else [n.target]):
+                    if _src(t).startswith("self.__"):
+                        out.add(_src(t))
+        return out
+    for fn_ in sorted(os.listdir(sroot)):
+        if not fn_.endswith(".py") or fn_ == "_simu.py":
+            continue
+        rel2 = "Simulations/" + fn_
+        for cls in _classes(_parse(repo, rel2)).values():
+            if not any(_src(b).split(".")[-1] == "_Simu" for b in cls.bases):
+                continue
+            meths = {m.name: m for m in cls.body if isinstance(m, ast.FunctionDef)}
+            if "Set_Iter" not in meths:
+                continue
+            restored = _priv_assigned(meths["Set_Iter"]) - (_priv_assigned(meths["Need_Update"]) if "Need_Update" in meths else set())
+            if not restored:
+                continue
+            reset = set()
+            for h in hooks:
+                if h in meths:
+                    reset |= _priv_assigned(meths[h])
+            if not restored <= reset:
+                F["t_meshset_initsols"] = False
+                L["t_meshset_initsols"] = "%s:%d" % (rel2, meths["Set_Iter"].lineno)
     if not _assigns(inner, "self.__mesh", marg):
         raise TranslateError("%s: mesh setter does not store the mesh" % rel)
 
@@ -558,6 +612,35 @@ def derive(repo):
                         where = "%s:%d" % (rel, m.lineno)
                 if refresh_ok and where == "Models:0":
                     where = "%s:%d" % (rel, cls.lineno)
+    # ... and quantities derived AT CONSTRUCTION from a parameter object (a sub-model: `elastic.C`,
+    # `elastic.Get_sqrt_C_S()`), stored on a private attribute that no other method ever re-assigns: they cannot follow
+    # a later change of that sub-model's parameters
+    for dirpath, _, files in sorted(os.walk(mroot)):
+        for fn in sorted(files):
+            if not fn.endswith(".py"):
+                continue
+            rel = os.path.relpath(os.path.join(dirpath, fn), os.path.join(repo, "EasyFEA"))
+            for cls in _classes(_parse(repo, rel)).values():
+                if not any(_src(b).split(".")[-1] in ("_IModel", "Updatable") for b in cls.bases):
+                    continue
+                funcs = [m for m in cls.body if isinstance(m, ast.FunctionDef)]
+                ini = next((m for m in funcs if m.name == "__init__"), None)
+                if ini is None:
+                    continue
+                params = {a.arg for a in ini.args.args[1:]}
+                for n in ast.walk(ini):
+                    if not (isinstance(n, ast.Assign) and len(n.targets) == 1 and _src(n.targets[0]).startswith("self.__")):
+                        continue
+                    derived = any(isinstance(x, ast.Attribute) and isinstance(x.value, ast.Name) and x.value.id in params
+                                  and (x.attr in ("C", "S") or x.attr.startswith("Get_")) for x in ast.walk(n.value))
+                    if not derived:
+                        continue
+                    tgt = _src(n.targets[0])
+                    reassigned = any(isinstance(x, (ast.Assign, ast.AugAssign)) and tgt in [_src(t) for t in (x.targets if isinstance(x, ast.Assign) else [x.target])]
+                                     for m in funcs if m is not ini for x in ast.walk(m))
+                    if not reassigned:
+                        refresh_ok = False
+                        where = "%s:%d" % (rel, n.lineno)
     F["t_model_cache_refresh"] = refresh_ok
     L["t_model_cache_refresh"] = where
     return F, L
@@ -569,7 +652,7 @@ ORDER = ["t_param_need", "t_model_notify", "t_upd_model_need", "t_upd_mesh_need"
          "t_updmesh_need", "t_updmesh_clear", "t_bcinit", "t_dirichlet", "t_neumann", "t_lagrange",
          "t_getk_reset", "t_newton_need", "t_pf_need_d", "t_pf_need_u", "t_pf_setiter_d", "t_pf_setiter_u",
          "t_pf_dmg_inval_u", "t_pf_el_inval_d", "t_csr_key_groups", "t_csr_key_ndof", "t_mass_key_group",
-         "t_model_cache_refresh"]
+         "t_param_set_unconditional", "t_model_cache_refresh"]
 
 MOPS = ["MTranslate", "MRotate", "MSymmetry", "MCoordSet"]
 
